@@ -111,7 +111,6 @@ BREAKING = [
     # --- cache
     dict(id="b130", file=Q, old="            _op_cache[(operator.truediv, self, other)] = (amnt, unit)", new="            _op_cache[(operator.truediv, other, self)] = (amnt, unit)", props=["C17"]),
     dict(id="b131", file=Q, old="                return _op_cache[(operator.truediv, self, other)]", new="                return _op_cache[(operator.mul, self, other)]", props=["C17"]),
-    dict(id="b132", file=R, old="        return self._item_list[idx][0]", new="        return self._item_list[idx][-1]", props=["C17"]),
     # --- text
     dict(id="b140", file=Q, old="        return f\"{self.amount} {self.unit}\"", new="        return f\"{self.amount}{self.unit}\"", props=["C18"]),
     dict(id="b141", file=Q, old="            parts = q_repr.lstrip().split(' ', 1)", new="            parts = q_repr.lstrip().rsplit(' ', 1)", props=["C18"]),
@@ -161,4 +160,6 @@ BENIGN = [
          new="            cached = _op_cache.get((operator.mul, self, other))\n            if cached is not None:\n                return cached", props=["C02", "C05", "C17"]),
     dict(id="g023", file=Q, old="        try:\n            return _SYMBOL_UNIT_MAP[symbol]\n        except KeyError:\n            raise ValueError(\n                f\"No unit with symbol '{symbol}' registered.\") from None",
          new="        unit = _SYMBOL_UNIT_MAP.get(symbol)\n        if unit is None:\n            raise ValueError(\n                f\"No unit with symbol '{symbol}' registered.\")\n        return unit", props=["C15", "C18"]),
+    dict(id="g024", file=R, old="        try:\n            idx = self._item_def_map[item_norm_def]\n        except KeyError:\n            item_list = self._item_list\n            idx = len(item_list)\n            item_list.append([item])\n            self._item_def_map[item_norm_def] = idx\n            return idx\n        else:",
+         new="        if item_norm_def not in self._item_def_map:\n            idx = len(self._item_list)\n            self._item_list.append([item])\n            self._item_def_map[item_norm_def] = idx\n            return idx\n        idx = self._item_def_map[item_norm_def]\n        if True:", props=["C02", "C15", "C16", "C17"]),
 ]
